@@ -134,8 +134,110 @@ func c11gen(r *Rand) *c11case {
 		sh[i] = cs.right[j]
 	}
 	cs.right = sh
+	// renumbered copy: every person carries a _UID that survives the copy, the pointers of the copy are
+	// a permutation of the original ones (so the pointer of a left individual names ANOTHER person on
+	// the right, whom the unique-id pass has usually claimed already), and there are namesakes (equal
+	// names and dates: score ties in the similarity pass)
+	if r.Chance(1, 6) && len(base) >= 2 {
+		cs.kind = append(cs.kind, "renumbered-copy:shared-uids,clashing-pointers,namesakes")
+		for i := range cs.left {
+			if len(cs.left[i].uids) == 0 {
+				cs.left[i].uids = []string{c11uid(555000 + i + 1000*r.Intn(1000))}
+			}
+			if i > 0 && r.Chance(1, 3) {
+				q := cs.left[r.Intn(i)]
+				cs.left[i].name, cs.left[i].birth, cs.left[i].death = q.name, q.birth, q.death
+			}
+		}
+		pp := r.Perm(len(cs.left))
+		cs.right = nil
+		for i, p := range cs.left {
+			q := p
+			q.ptr = cs.left[pp[i]].ptr
+			if r.Chance(1, 5) {
+				q.uids = nil
+			}
+			if r.Chance(1, 8) {
+				q.death = ""
+			}
+			cs.right = append(cs.right, q)
+		}
+		for i := r.Intn(2); i > 0; i-- {
+			q := cs.left[r.Intn(len(cs.left))]
+			q.ptr, q.uids, q.fsid = fmt.Sprintf("N%d", i), nil, ""
+			cs.right = append(cs.right, q) // a namesake without identifier
+		}
+		pm := r.Perm(len(cs.right))
+		sh2 := make([]c11person, len(cs.right))
+		for i, j := range pm {
+			sh2[i] = cs.right[j]
+		}
+		cs.right = sh2
+	}
 	// fault layer
 	switch {
+	case r.Chance(1, 5) && len(cs.left) >= 2 && len(cs.right) >= 3:
+		// one left individual with several unique ids that select DIFFERENT right individuals (which of
+		// them is claimed depends on sync.Map order), a same-pointer decoy on the right that carries no
+		// id, and a namesake: after the id pass the pointer pass and a tie-prone similarity pass follow
+		i := r.Intn(len(cs.left))
+		nu := 2 + r.Intn(2)
+		if nu > len(cs.right)-1 {
+			nu = len(cs.right) - 1
+		}
+		rp := r.Perm(len(cs.right))
+		cs.left[i].uids = nil
+		for q := 0; q < nu; q++ {
+			u := c11uid(888000 + 10*r.Intn(1000) + q)
+			cs.left[i].uids = append(cs.left[i].uids, u)
+			cs.right[rp[q]].uids = []string{u}
+		}
+		// the decoy: some other right individual gets the left individual's pointer (swapping pointers
+		// with whoever had it, so that pointers stay unique per side)
+		d := rp[nu]
+		for q := range cs.right {
+			if cs.right[q].ptr == cs.left[i].ptr {
+				cs.right[q].ptr = cs.right[d].ptr
+			}
+		}
+		cs.right[d].ptr = cs.left[i].ptr
+		cs.right[d].uids, cs.right[d].fsid = nil, ""
+		if r.Chance(1, 2) { // and a namesake of the decoy on the left
+			j := r.Intn(len(cs.left))
+			if j != i {
+				cs.left[j].name, cs.left[j].birth, cs.left[j].death = cs.right[d].name, cs.right[d].birth, cs.right[d].death
+			}
+		}
+		if r.Chance(2, 3) {
+			// the resolutions differ in more than the claimed pair: another left individual j has the
+			// pointer of the target of the SECOND identifier (in sorted order — the first one is what the
+			// model's document-order resolution takes). If that target is claimed, j's pointer job is
+			// blocked and j goes to the similarity pass, where the decoy and the unclaimed target are
+			// namesakes (equal scores); if it is not claimed, j is paired with it by pointer.
+			us := append([]string{}, cs.left[i].uids...)
+			sort.Strings(us)
+			t0, t1 := -1, -1
+			for q := range cs.right {
+				if len(cs.right[q].uids) == 1 && cs.right[q].uids[0] == us[0] {
+					t0 = q
+				}
+				if len(cs.right[q].uids) == 1 && cs.right[q].uids[0] == us[1] {
+					t1 = q
+				}
+			}
+			j := r.Intn(len(cs.left))
+			if j != i && t0 >= 0 && t1 >= 0 {
+				for q := range cs.right {
+					if cs.right[q].ptr == cs.left[j].ptr {
+						cs.right[q].ptr = cs.right[t1].ptr
+					}
+				}
+				cs.right[t1].ptr = cs.left[j].ptr
+				cs.right[t0].name, cs.right[t0].birth, cs.right[t0].death = cs.right[d].name, cs.right[d].birth, cs.right[d].death
+				cs.kind = append(cs.kind, "multi-uid-left:resolution decides a pointer job and a tie")
+			}
+		}
+		cs.kind = append(cs.kind, "multi-uid-left:several-targets,same-pointer-decoy")
 	case r.Chance(1, 14) && len(cs.left) >= 2 && len(cs.right) >= 1:
 		// two left individuals carry the unique id of one right individual
 		u := c11uid(777000 + r.Intn(1000))
@@ -519,11 +621,11 @@ func c11cmp(req, impl, model string) bool {
 		return true
 	}
 	k := req[strings.LastIndexByte(req, ' ')+1:]
-	if k != "0" && (strings.Contains(flags, "ties=1") || strings.Contains(flags, "ok=0")) {
-		if c11skipped != nil {
-			c11skipped("permuted-arrival-not-compared:ties-or-guard")
-		}
-		return true
+	if k != "0" && (strings.Contains(flags, "ties=1") || strings.Contains(flags, "ok=0")) && c11skipped != nil {
+		// the driver answers with the sequential result for every resolution whose job list has
+		// score ties at or above the threshold or fails JobsOK: a permuted arrival is not
+		// required to reproduce the sequential run there
+		c11skipped("permuted-arrival:sequential answer used where ties or guard fail")
 	}
 	// one model answer per resolution of the ambiguous choices: the implementation made one of them
 	for _, ans := range strings.Split(pairs, " | ") {
